@@ -39,9 +39,13 @@ def COST(desc):
     return 20 * desc.get("nroots", 1) if desc.get("fam") in ("big", "cbig") else (3 if desc.get("nroots", 1) > 1 else 1)
 
 
+OMEGA_STATE_CHECKS = [0]
+
+
 def BOUND(tier):
     return {"families": ["eph n=4", "elec n=4", "two n=4", "spin n=4", "complex spin n=4", "spin n=10 real and complex Hermitian (local problems >= 1000: iterative eigensolver actually used), 1..2 (3) roots"], "schedules": "all sequences of length <= 3 over 3 steps + one long schedule",
-            "nroots": [1, 2, 3, 4], "trees": "plane trees <= 4 nodes"}
+            "nroots": [1, 2, 3, 4], "trees": "plane trees <= 4 nodes",
+            "site_swapping": "4 models (spin, vibronic, ab-initio-like with / without labels) x 4 swapping criteria, plain and Jordan-Wigner exchanges"}
 
 
 def cases(tier, seed):
@@ -65,6 +69,7 @@ def cases(tier, seed):
     # local problems of dimension >= 1000 are the only ones that reach the iterative eigensolver: real and complex Hermitian, one and several roots
     for fam, nroots in (("big", 2), ("cbig", 1), ("cbig", 2)) + ((("cbig", 3), ("big", 3)) if not quick else ()):
         yield {"k": "chain", "fam": fam, "n": 10, "sector": [0], "method": "2site", "algo": "davidson", "nroots": nroots, "omega": False}
+    yield from ofs_cases()
     for N in (2, 3, 4):
         for parent in plane_trees(N):
             for algo in ("davidson", "arpack", "direct"):
@@ -213,6 +218,14 @@ def run_chain(desc, seed):
             if np.any(np.asarray(st.qntot).reshape(-1) != np.array(sec)):
                 add(viol, "C08:state-qntot", f"{tag}: qntot {st.qntot}")
             eh = np.real(np.vdot(v, Hd @ v)) / max(nv ** 2, 1e-300)
+            if omega is not None and ends_exact and converging and nroots == 1:
+                # the returned state is the one whose (H - omega)^2 expectation was reported
+                K = Hd - omega * np.eye(len(Hd))
+                e2 = np.real(np.vdot(K @ v, K @ v)) / max(nv ** 2, 1e-300)
+                OMEGA_STATE_CHECKS[0] += 1
+                if abs(e2 - w2[0]) > 1e-6 * hscale ** 2:
+                    add(viol, f"C08:omega:returned-state-differs-from-reported:{desc['method']}:{desc['algo']}:{'complex' if is_complex else 'real'}",
+                        f"{tag} schedule {proc}: returned state has <(H-omega)^2> = {e2!r}, reported / exact minimum {w2[0]!r}")
             if omega is None:
                 if eh < wex[0] - 1e-9 * hscale:
                     add(viol, f"C08:state-energy-below-ground-state:{desc['method']}", f"{tag}: <psi|H|psi> = {eh!r} < E0 = {wex[0]!r}")
@@ -228,7 +241,8 @@ def run_chain(desc, seed):
             G = np.array([[np.vdot(dense_of(a, with_coeff=False), dense_of(b, with_coeff=False)) for b in states] for a in states])
             if np.abs(G - np.eye(len(states))).max() > 1e-5:
                 add(viol, f"C08:roots-not-orthonormal:{desc['method']}", f"{tag}: Gram matrix deviates by {np.abs(G - np.eye(len(states))).max():.2e}")
-    return {"nontrivial": dimsec > 1 and nrun > 0, "counters": {"optimiser_runs": nrun}, "outcome": f"chain:{'viol' if viol else 'ok'}", "viol": list(viol.values()),
+    nomega, OMEGA_STATE_CHECKS[0] = OMEGA_STATE_CHECKS[0], 0
+    return {"nontrivial": dimsec > 1 and nrun > 0, "counters": {"optimiser_runs": nrun, "omega_state_checks": nomega}, "outcome": f"chain:{'viol' if viol else 'ok'}", "viol": list(viol.values()),
             "sample": {"desc": desc, "sector_dim": dimsec, "E0": float(wex[0]), "runs": nrun}}
 
 
@@ -348,7 +362,40 @@ def run_omega_scan(desc, seed):
     return {"nontrivial": nrun >= 3, "counters": {"optimiser_runs": nrun}, "outcome": f"omega-scan:{'viol' if viol else 'ok'}", "viol": list(viol.values()), "sample": {"desc": desc, "targets": len(targets)}}
 
 
+def ofs_cases():
+    # on-the-fly site swapping ON (schedules of CompressConfig objects, the only form in which the optimiser keeps the swapping settings):
+    # spin, vibronic and ab-initio-like models, every swapping criterion, plain and Jordan-Wigner exchanges
+    for model in ("spin5", "vibronic", "qc2", "qc2-noqn"):
+        for ofs in ("ofs_d", "ofs_s", "ofs_ds", "ofs_debug"):
+            yield {"k": "ofs", "model": model, "driver": "gs", "ofs": ofs}
+            yield {"k": "ofs", "model": model, "driver": "gs", "ofs": ofs, "schedule": "short"}
+
+
+def run_ofs(desc, seed):
+    """the optimiser runs of C17 (which owns the operator / site-order bookkeeping) judged by C08's clauses: reported energy variational and
+    exact at full bond dimension, returned state (mapped back to the original site order, with the fermionic sign for Jordan-Wigner
+    exchanges) is the exact ground state"""
+    from checks import c17_fermion_ofs as C17
+    r = C17.run_ofs(dict(desc), seed)
+    keep = {"C17:ofs:gs:not-variational": "C08:ofs:not-variational", "C17:ofs:gs:state-not-ground-state": "C08:ofs:returned-state-not-ground-state",
+            "C17:ofs:gs:returned-state-energy-differs-from-reported:jw": "C08:ofs:returned-state-energy-differs-from-reported:jw",
+            "C17:ofs:gs:returned-state-energy-differs-from-reported:plain": "C08:ofs:returned-state-energy-differs-from-reported:plain"}
+    viol = []
+    for v in r.get("viol", []):
+        sig = v["sig"]
+        if sig in keep:
+            viol.append({"sig": keep[sig], "msg": v["msg"]})
+        elif sig.startswith("C17:ofs:gs:energy:"):
+            viol.append({"sig": "C08:ofs:not-exact-at-full-bond:" + sig.split(":")[-1], "msg": v["msg"]})
+        elif sig.startswith("C17:ofs:exception:"):
+            viol.append({"sig": sig.replace("C17:", "C08:", 1), "msg": v["msg"]})
+    return {"nontrivial": r.get("nontrivial", False), "counters": {"optimiser_runs": 1, "runs_with_swaps": (r.get("counters") or {}).get("runs_with_swaps", 0)},
+            "outcome": "ofs:" + ("viol" if viol else "ok"), "viol": viol, "sample": r.get("sample")}
+
+
 def run_case(desc, seed):
+    if desc["k"] == "ofs":
+        return run_ofs(desc, seed)
     if desc["k"] == "omega-scan":
         return run_omega_scan(desc, seed)
     if desc["k"] == "chain":
